@@ -320,7 +320,7 @@ fn c01_false_twin() {
 
 // ------------------------------------------------------------------------------------------ C19
 
-// @h props=C19,C01:t tier=quick family=M mem=6 timeout=2400 stubs=ModelRS,utils::stable_partition_of_4->fixed_array_reference(c17) role=qwt.paths.u8
+// @h props=C19,C01:t tier=quick family=M mem=18 timeout=2400 stubs=ModelRS,utils::stable_partition_of_4->fixed_array_reference(c17) role=qwt.paths.u8
 // @bound QWaveletTree<u8, ModelRS>: length 3 (s[2] = 255): new / From<Vec> / collect give equal values, Clone is equal, a sequence differing in one symbolic position gives an unequal value
 // @funcs QWaveletTree::new, QWaveletTree::from<Vec>, QWaveletTree::from_iter, QWaveletTree::clone, QWaveletTree::eq
 #[kani::proof]
@@ -353,7 +353,7 @@ fn c19_qwt_paths_u8_n3() {
     core::mem::forget(t4);
 }
 
-// @h props=C19 tier=quick family=M mem=6 timeout=2400 stubs=ModelRS,utils::stable_partition_of_4->fixed_array_reference(c17) role=qwt.widths
+// @h props=C19 tier=quick family=M mem=18 timeout=2400 stubs=ModelRS,utils::stable_partition_of_4->fixed_array_reference(c17) role=qwt.widths
 // @bound the same concrete numbers [1,0,2,4,5,3] carried as u8, u32 and u128: get / rank / select / len / n_levels agree for symbolic arguments
 // @funcs QWaveletTree::new, QWaveletTree::get, QWaveletTree::rank, QWaveletTree::select
 #[kani::proof]
@@ -385,7 +385,7 @@ fn c19_qwt_widths() {
 
 // ------------------------------------------------------------------------------------------ C18
 
-// @h props=C18 tier=quick family=M mem=6 timeout=2400 stubs=ModelRS,utils::stable_partition_of_4->fixed_array_reference(c17) role=purity.qwt
+// @h props=C18 tier=quick family=M mem=18 timeout=2400 stubs=ModelRS,utils::stable_partition_of_4->fixed_array_reference(c17) role=purity.qwt
 // @bound QWaveletTree<u8, ModelRS>: length 3: a batch of queries with symbolic arguments leaves the tree equal to its snapshot; repeating each query gives the same answer
 // @funcs QWaveletTree::get, QWaveletTree::rank, QWaveletTree::rank_prefetch, QWaveletTree::select, QWaveletTree::eq
 #[kani::proof]
